@@ -24,6 +24,25 @@ ResolutionSound ==
     IN /\ r.mc # Unspec /\ r.tc # Unspec /\ r.cp # Unspec
        /\ ResolveYuv(r, s[1], s[2]) = r
        /\ (mc # Unspec => r.mc = mc) /\ (tc # Unspec => r.tc = tc) /\ (cp # Unspec => r.cp = cp)
+\* C14 at design level: the pinned dispatch is symmetric (a conversion succeeds exactly when its reverse does) and the
+\* single-stage pairs return the same error, over all 3276 fully specified triples
+SrcImg(c, m, t, p) ==
+  LET k == SrcKind(c) IN
+  IF k = "yuv" THEN [NoImage EXCEPT !.kind = "yuv", !.w = 2, !.h = 2, !.st = 8, !.n = 8, !.full = 0, !.ssx = 0, !.ssy = 0, !.mc = m, !.tc = t, !.cp = p,
+                                     !.emc = MatrixUsed(m, p), !.etc = t, !.ecp = p]
+  ELSE IF k = "rgb" THEN [FloatImg("rgb", 2, 2) EXCEPT !.tc = t, !.cp = p, !.etc = t, !.ecp = p]
+  ELSE FloatImg(k, 2, 2)
+ArgsOf(c, m, t, p) ==
+  IF c \in {"RgbToYuv", "LinToYuv", "XybToYuv"} THEN [mc |-> m, tc |-> t, cp |-> p, full |-> 0, n |-> 8, ssx |-> 0, ssy |-> 0, st |-> 8]
+  ELSE IF c \in {"LinToRgb", "XybToRgb"} THEN [tc |-> t, cp |-> p] ELSE NoArgs
+Res(c, m, t, p) == Conv(c, SrcImg(c, m, t, p), ArgsOf(c, m, t, p)).res
+PinnedSymmetric ==
+  \A m \in McAll \ {Unspec}, t \in TcAll \ {Unspec}, p \in CpAll \ {Unspec} :
+    /\ \A c \in ConvNames : (Res(c, m, t, p) = "ok") <=> (Res(Rev(c), m, t, p) = "ok")
+    /\ Res("YuvToRgb", m, t, p) = Res("RgbToYuv", m, t, p)
+    /\ (t \in Tc14 \/ p \in Cp11) => Res("RgbToLin", m, t, p) = Res("LinToRgb", m, t, p)
+    /\ \A c \in ConvNames : Res(c, m, t, p) \in AllowedOutcomes(c, m, t, p)
+ASSUME PinnedSymmetric
 ASSUME ResolutionSound
 ASSUME PinnedAdmissible
 =====================================================================================
